@@ -20,6 +20,7 @@ SITE = ROOT / 'harness' / 'site'
 PY = os.environ.get('MOPEPGEN_PY', '/venv/bin/python')
 NPROC = int(os.environ.get('VERIF_NPROC', '16'))
 GUARD = 'MOPEPGEN_VERIF'
+DEFAULT_CLASS_CEILING = 0.05     # known-finding cases per case of a workload class without a recorded ceiling
 
 
 def hash64(*parts) -> int:
@@ -237,9 +238,11 @@ class Report:
             cases = self.class_cases.get(cls, 0)
             if cases:
                 rates[f'{fid}/{cls}'] = [n, cases, round(n / cases, 4)]
-            for rc in self.known.get(fid, {}).get('rate_ceilings', []):
-                if rc.get('property') not in (None, self.prop) or rc.get('class') != cls:
-                    continue
+            rcs = [rc for rc in self.known.get(fid, {}).get('rate_ceilings', [])
+                   if rc.get('property') in (None, self.prop) and rc.get('class') == cls]
+            if not rcs:
+                rcs = [{'max_per_case': DEFAULT_CLASS_CEILING, 'min_cases': 100, 'measured': '< 0.02 on the unchanged tree'}]
+            for rc in rcs:
                 if cases >= rc.get('min_cases', 50) and n / cases > rc['max_per_case']:
                     self.violations.append({'kind': 'known-finding-drift', 'mech': fid, 'spec': None, 'detail': None,
                                             'msg': f'{n} cases with instances of known finding {fid} among {cases} cases of class {cls} '
